@@ -140,6 +140,39 @@ P = {
          "field boundary alphabets"),
 }
 
+# Additions made while strengthening the drivers against seeded changes (technique suffix, assurance suffix).
+EXTRA = {
+ "C03": ("; object-lifetime dimension (repeated rebuild, same-count replacement)", " Leaf counts to 4200/9000 incl. sizes around 1024/2048/4096; RebuildMerkleRoot repeated and after replacing a transaction."),
+ "C05": ("; all ordered pairs / selected triples of frames in one stream with retained decoded messages", " Retained messages compared after later reads and after the stream is overwritten (no aliasing)."),
+ "C08": ("; close+reopen as an event of the history (deviation bound 2)", " Full (h,r) and cross-state proof grid after every block and every restart, also before any further commit."),
+ "C11": ("; ledger-level enumeration of node-local events between ExecuteBlock and SubmitBlock (bound 2); volume dimension", " Write set reaching SubmitBlock and persisted state equal the net write set under every placement of pre-executions / re-executions / reads."),
+ "C12": ("; large-block kinds (1500-key tx, 1100-tx block) in the crash histories", " Crash points are learnt from each run, so chunked or additional durable writes are enumerated automatically."),
+ "C13": ("; schedule enumeration of two concurrent committers (persistence hook = switch point, blocking on the saving semaphore observed through goroutine state), preemption bound 1-2", " Final ledger of every schedule equals a sequential outcome: accumulator and state-tree sizes, next block root, successor accepted, store reopens."),
+ "C14": ("; prior-state dimension (header-cache hit, rejected variant first, ExecuteBlock first) x same-hash signature variants", " Stored and served headers must themselves carry the quorum."),
+ "C15": ("; schedule exploration of two concurrent block executions (every CacheDB operation and sync primitive a scheduling point, sync.Pool deterministic), preemption bound 1-2", " Each concurrent execution must equal the reference model's result for it alone."),
+ "C16": ("; process-history dimension for every corpus block (cold child process, after own discarded execution, after pre-execution, after another block) incl. a real-PoW ETH header", " Results identical in every process history."),
+ "C17": ("; dynamic key audit: written keys of real transactions vs the model's entitled logical records, injectivity over explored histories", " UpdateFee rounds across timeouts, request ids, commitDpos views."),
+ "C18": ("; configuration dimension for the epoch-due test (MaxBlockChangeView x view height x height incl. uint32 wrap)", " Wide-integer oracle for 'before it is due'."),
+ "C20": ("; BTC adapter (real SPV deposits, witness/stripped/other-height resubmissions) and envelope variants", " Chain ids 0, 1 and MaxUint64."),
+ "C22": ("; schedule exploration of two concurrent imports on separate worlds (CacheDB operations and sync primitives incl. Pool as scheduling points), preemption bound 1-2", " Each concurrent import must equal the same import executed alone and satisfy the request/leaf oracle."),
+ "C23": ("; hash-shape dimension (keccak with 0/1/2 leading zero bytes stored stripped, trailing zeros) for all 9 routers", ""),
+ "C24": ("; deposit histories through the real ont handlers (stored-message state x claimed height x entrance height x root)", ""),
+ "C25": ("; validator status changes inside the view (quit, candidate approval, commitDpos) as events", ""),
+ "C29": ("; msc in-header vote family against the clique tally model; hand-over families with set-size changes", ""),
+ "C30": ("; deposit header height relative to the tracked epoch x body x commit x claimed block id", ""),
+ "C31": ("; batching dimension (1-3 headers per call, all compositions) for ont / neo / neo3", ""),
+ "C34": ("; alias spellings of the key parameter in every method", ""),
+ "C36": ("; request-list shapes (unregistered entries, duplicates, orders) against a model of approved requests", ""),
+ "C37": ("; schedule exploration of the worker/consensus seam of the server (lock operations of server, worker, pool), preemption bound 2-3", ""),
+ "C40": ("; seven peer-index shapes incl. indexes >= 64 and near 2^32", ""),
+ "C42": ("; measured number of DISTINCT validators at the quorum event of signature_manager under re-submission patterns", ""),
+ "C43": ("; wallet-level operation sequences incl. export / low-security export / clone mutation, live wallet and every exported file reloaded", ""),
+ "C44": ("; provenance states (decoded zero-copy / reader / re-encoded / reused object) x post-decode mutations", ""),
+}
+for _k, (_t, _a) in EXTRA.items():
+    _l, _tech, _text, _note = P[_k]
+    P[_k] = (_l, _tech + _t, _text + _a, _note)
+
 def main():
     claimed = []
     p = os.path.join(V, "claimed.txt")
